@@ -14,6 +14,8 @@ THEOREMS = [NS + t for t in (
     'C11_cells_count', 'C11_cells_mem', 'C11_cells_nodup', 'C11_cols_same_cells',
     'C11_inter_spec', 'C11_inter_null_iff', 'C11_inter_cells', 'C11_union_bounding', 'C11_union_least',
     'C11_inter_comm', 'C11_union_comm', 'C11_inter_idem', 'C11_union_idem', 'C11_inter_assoc', 'C11_union_assoc',
+    'C11_covers_bounded', 'C11_inter_spec_unbounded', 'C11_inter_cells_unbounded', 'C11_union_bounding_unbounded',
+    'C11_inter_comm_unbounded', 'C11_inter_idem_unbounded', 'C11_inter_assoc_unbounded', 'C11_bounded_not_unbounded', 'C11_unbounded_side',
     'C11_operand_assoc', 'C11_offset_range', 'C11_offset_period', 'C11_offset_add', 'C11_offset_zero',
     'C11_offset_wrap_boundary')]
 DESIGN_REF = 'DESIGN.md §7 C11'
@@ -34,7 +36,7 @@ ASSUMPTIONS = [
 ]
 TRUSTED = ['modelled, not verified: Python re (ABSOLUTE_RE, R1C1_RANGE_RE, TABLE_REF_RE), str.split/replace, '
            'openpyxl get_column_letter / column_index_from_string / quote_sheetname']
-REQUIRED_BUCKETS = ['parse:a1', 'parse:r1c1', 'parse:sheet', 'parse:malformed', 'tuple', 'tuple:bang', 'nota',
+REQUIRED_BUCKETS = ['comb:unbounded', 'parse:a1', 'parse:r1c1', 'parse:sheet', 'parse:malformed', 'tuple', 'tuple:bang', 'nota',
                     'comb:i', 'comb:u', 'comb3', 'assoc', 'offset', 'enum', 'contains', 'sheet']
 EXHAUSTIVE = False
 
@@ -265,6 +267,31 @@ def cases(tier, rng):
         for b in pool:
             for k in 'iu':
                 yield {'op': 'comb', 'k': k, 'a': rect_text(a), 'b': rect_text(b), 'wf': 1}
+    # whole rows / columns (an unbounded side spans 1..MAX) against each other and against rectangles touching the
+    # last column / row
+    ub = ['1:1', '1:3', '2:5', 'A:A', 'A:C', 'B:XFD', 'XFD:XFD', 'XFC:XFD', '1048576:1048576', '3:1048576',
+          '1048575:1048576']
+    edge = ['A1', 'B2:C3', 'XFD1', 'XFC1:XFD2', 'A1:XFD1', 'A1:XFD1048576', 'A1048576', 'A1048575:B1048576',
+            'C1:C1048576', 'XFD1048576', 'A1:XFC1048575', 'D4']
+    for a in ub:
+        for b in ub + edge:
+            for k in 'iu':
+                yield {'op': 'comb', 'k': k, 'a': a, 'b': b, 'wf': 1, 'ub': 1}
+                if b not in ub:
+                    yield {'op': 'comb', 'k': k, 'a': b, 'b': a, 'wf': 1, 'ub': 1}
+    for _ in range(400 if thorough else 80):
+        a = rng.choice(ub) if rng.random() < .5 else (
+            f'{col_letter(min(x := rc(), y := rc()))}:{col_letter(max(x, y))}' if rng.random() < .5
+            else f'{min(x := rr(), y := rr())}:{max(x, y)}')
+        b = rect_text(rrect()) if rng.random() < .6 else rng.choice(ub + edge)
+        k = rng.choice('iu')
+        yield {'op': 'comb', 'k': k, 'a': a, 'b': b, 'wf': 1, 'ub': 1}
+        yield {'op': 'comb', 'k': k, 'a': b, 'b': a, 'wf': 1, 'ub': 1}
+    for (a, b, c) in [('1:1', 'A1:XFD1', 'XFD:XFD'), ('A:A', '1:1', 'A1'), ('1:3', '2:5', 'B:C'), ('A:A', 'B:B', '1:1'),
+                      ('XFD:XFD', '1048576:1048576', 'A1:XFD1048576'), ('A:B', 'B2', '2:2')]:
+        for k in 'iu':
+            for side in 'lr':
+                yield {'op': 'comb3', 'k': k, 'side': side, 'a': a, 'b': b, 'c': c, 'wf': 1, 'ub': 1}
     # sheets on the operands, unbounded and inverted operands, error-code operands
     ops = ['A1', 'B2:C3', 'S!A1', 'S!B2:C3', 'T!B2:C3', "'S 1'!B2:C4", 'A:A', 'A:C', '1:1', '1:3', '2:5', 'XFD2',
            'XFD:XFD', 'B2:A1', 'C5:A1', 'A1048576', '1048576:1048576', '#NULL!', '#VALUE!', '#REF!', 'A0', 'junk',
@@ -317,6 +344,11 @@ def cases(tier, rng):
         w, h = rng.randint(1, 12), rng.randint(1, 12)
         c2, r2 = min(maxc, c1 + w - 1), min(maxr, r1 + h - 1)
         yield {'op': 'enum', 'text': a1(c1, r1, c2, r2), 'wf': 1}
+    # bounded ranges that span every column / row of the sheet are ranges like any other
+    for t in ('A1:XFD1', 'A2:XFD3', 'XFC1:XFD2'):
+        yield {'op': 'enum', 'text': t, 'wf': 1}
+    for t in ('A1:A1048576', 'B1:C1048576', 'A1:XFD1048576', 'A1:XFD1', 'XFD1:XFD1048576'):
+        yield {'op': 'enum', 'text': t, 'wf': 1, 'nolist': 1}
     for t in ('A:A', 'A:B', '1:1', '1:2', 'B2:A1', 'C5:A1', 'A0', '#REF!', 'junk', 'A1:B2:C3', 'R1C1:R2C2'):
         yield {'op': 'enum', 'text': t}
     for a in g4[::3]:
@@ -448,6 +480,8 @@ def impl(c):
         a = xl.AddressRange.create(c['text'])
         h, w = a.size
         head = f'S {h} {w} U {int(bool(a.is_unbounded_range))}'
+        if c.get('nolist'):
+            return head
         res = guard(lambda: fmt_grid(a.resolve_range))
         if a.is_range:
             return f'{head} ROWS {fmt_grid(a.rows)} COLS {fmt_grid(a.cols)} RES {res}'
@@ -489,7 +523,7 @@ def model_lines(c):
     if op == 'offset':
         return [f"c11 offset {T(c['text'])} {c['ri']} {c['ci']} {c['rj']} {c['cj']}"]
     if op == 'enum':
-        return [f"c11 enum {T(c['text'])}"]
+        return [f"c11 {'enum0' if c.get('nolist') else 'enum'} {T(c['text'])}"]
     if op == 'contains':
         return [f"c11 contains {T(c['r'])} {T(c['c'])}"]
     if op in ('quote', 'unquote'):
@@ -531,7 +565,7 @@ def bucket(c):
     if op == 'tuple':
         return 'tuple:bang' if _has_bang(c) else 'tuple'
     if op == 'comb':
-        return 'comb:' + c['k']
+        return 'comb:unbounded' if c.get('ub') else 'comb:' + c['k']
     if op in ('quote', 'unquote', 'split'):
         return 'sheet'
     return op
@@ -547,6 +581,13 @@ def _parse_fmt(s):
         return {'k': p[1], 'sheet': core.dec(p[2]), 'c1': int(p[3]), 'r1': int(p[4]), 'c2': int(p[5]),
                 'r2': int(p[6]), 'h': int(p[7]), 'w': int(p[8]), 'address': core.dec(p[9])}
     return None
+
+
+def _span(d, maxc, maxr):
+    """corners of an address with an unbounded side (stored as 0) read as 1..MAX"""
+    c1, c2 = (1, maxc) if 0 in (d['c1'], d['c2']) else (d['c1'], d['c2'])
+    r1, r2 = (1, maxr) if 0 in (d['r1'], d['r2']) else (d['r1'], d['r2'])
+    return (c1, r1, c2, r2)
 
 
 def _cells(d):
@@ -599,8 +640,15 @@ def oracles(results):
             combs[(c['k'], c['a'], c['b'])] = r
             a, b = _parse_fmt(fmt_addr(xl.AddressRange.create(c['a']))), \
                 _parse_fmt(fmt_addr(xl.AddressRange.create(c['b'])))
-            ca, cb = (a['c1'], a['r1'], a['c2'], a['r2']), (b['c1'], b['r1'], b['c2'], b['r2'])
+            ca, cb = _span(a, maxc, maxr), _span(b, maxc, maxr)
             d = _parse_fmt(out)
+            if d is not None and c.get('ub'):
+                if (d['h'], d['w']) != (d['r2'] - d['r1'] + 1, d['c2'] - d['c1'] + 1) and 0 not in (
+                        d['c1'], d['r1'], d['c2'], d['r2']):
+                    yield c, f'size of the result is not its extent: {out[:80]}'
+                d = dict(d)
+                d['c1'], d['r1'], d['c2'], d['r2'] = _span(d, maxc, maxr)
+                d['h'], d['w'] = d['r2'] - d['r1'] + 1, d['c2'] - d['c1'] + 1
             if c['k'] == 'i':
                 lo = (max(ca[0], cb[0]), max(ca[1], cb[1]), min(ca[2], cb[2]), min(ca[3], cb[3]))
                 empty = lo[0] > lo[2] or lo[1] > lo[3]
@@ -615,7 +663,7 @@ def oracles(results):
                     yield c, f'union is not the minimal bounding rectangle {bb}: {out[:80]}'
             if d is not None and (d['h'], d['w']) != (d['r2'] - d['r1'] + 1, d['c2'] - d['c1'] + 1):
                 yield c, f'size of the result is not its extent: {out[:80]}'
-            if c['a'] == c['b'] and out != fmt_addr(xl.AddressRange.create(c['a'])):
+            if c['a'] == c['b'] and not c.get('ub') and out != fmt_addr(xl.AddressRange.create(c['a'])):
                 yield c, f'not idempotent: {out[:80]}'
         elif op == 'assoc':
             parts = out.split(' ')
@@ -642,6 +690,11 @@ def oracles(results):
                 yield c, f'offset is {(ds[0]["c1"], ds[0]["r1"])}, wrap-around arithmetic gives {want}'
         elif op == 'enum':
             m = out.split(' ')
+            if m[0] == 'S' and m[3:5] != ['U', '0']:
+                yield c, f'a bounded range is classified as unbounded: {out[:40]}'
+                continue
+            if c.get('nolist'):
+                continue
             if 'ROWS' not in m:
                 if m[-2:] != ['RES', m[-1]] or m[1:3] != ['1', '1']:
                     yield c, f'cell enumeration: {out[:80]}'
